@@ -227,15 +227,19 @@ where
                 break;
             }
         }
-        // A deadlock verdict rests on a quiescence window, i.e. on time. Before it is reported it
-        // must recur: the same case is executed up to 4 more times; if the job then always ends,
-        // the case is recorded as inconclusive (with its replay file kept for inspection) instead
-        // of raising an alarm that nobody could reproduce.
+        // A deadlock verdict rests on a quiescence window, i.e. on time, and a "host panicked"
+        // verdict on whatever made a thread of the job panic in that one execution (both kinds
+        // were seen once each as alarms that hundreds of re-executions never reproduced). Before
+        // such a verdict is reported it must recur: the same case is executed up to 6 more times;
+        // if the job then always ends well, the case is recorded as inconclusive (with its replay
+        // file kept for inspection) instead of raising an alarm that nobody could reproduce.
+        // Verdicts about results (a sink or a probe differing from the reference) are reported
+        // at once.
         if !shrinking {
             if let Case::Fail { message, replay } = &outcome {
-                if message.contains("deadlock: no engine event") {
+                if message.contains("deadlock: no engine event") || message.contains(" panicked: ") {
                     let mut recurred = None;
-                    for _ in 0..4 {
+                    for _ in 0..6 {
                         let again = f(&choices, &mut scratch, true);
                         if matches!(again, Case::Fail { .. }) {
                             recurred = Some(again);
@@ -249,10 +253,10 @@ where
                             let _ = std::fs::create_dir_all(&dir);
                             let path = dir.join(format!("unconfirmed-{:016x}.json", fingerprint(&replay.to_string())));
                             let _ = std::fs::write(&path, serde_json::to_string_pretty(replay).unwrap_or_default());
-                            *s.report.extra.entry("unconfirmed_deadlock_verdicts".into()).or_insert(serde_json::json!(0u64)) =
-                                serde_json::json!(s.report.extra.get("unconfirmed_deadlock_verdicts").and_then(|v| v.as_u64()).unwrap_or(0) + 1);
+                            *s.report.extra.entry("unconfirmed_verdicts".into()).or_insert(serde_json::json!(0u64)) =
+                                serde_json::json!(s.report.extra.get("unconfirmed_verdicts").and_then(|v| v.as_u64()).unwrap_or(0) + 1);
                             outcome = Case::Inconclusive(format!(
-                                "unconfirmed (the job ended in 4 re-executions; case kept in {}): {}",
+                                "unconfirmed (the verdict did not recur in 6 re-executions; case kept in {}): {}",
                                 path.display(),
                                 message.lines().next().unwrap_or("")
                             ));
